@@ -178,7 +178,7 @@ def _chains_over(body, names, fields=()):
     out = []
     inner = set()
     for c in exprs(body, "MethodCall"):
-        root, ch = chain(c)
+        root, ch = chain(c, follow=False)
         if local_name(root) in names or any(root_is_field(c, "self", f) for f in fields):
             out.append((c, root, ch))
             for x in ch[:-1]:
@@ -271,7 +271,7 @@ def _arg_locals(hb):
         changed = False
         for st in exprs(hb["body"], "SLet"):
             if "init" in st and st["pat"].get("k") == "PBinding" and st["pat"]["name"] not in names:
-                root, ch = chain(st["init"])
+                root, ch = chain(st["init"], follow=False)
                 if local_name(root) in names and ch and ch[-1]["m"] in ("collect", "into_boxed_slice", "into_iter", "iter"):
                     names.add(st["pat"]["name"])
                     changed = True
@@ -300,7 +300,7 @@ def _origin(e, hb, role_of=None):
         if inner.get("k") == "Call" and norm(inner.get("callee", "")).endswith("Result::Ok"):
             return "once-ok:" + str(role(local_name(inner["args"][0])))
         return "once:?"
-    root, ch = chain(e)
+    root, ch = chain(e, follow=False)
     nm = local_name(root)
     if nm:
         v = chain_verdict(ch)
